@@ -106,6 +106,11 @@ def api_scripts(tier, rng, n=None):
             L.append(f"peek 1 {1 if wildcard else 0} {H(s)}")
             L.append(pkt_op("protect", 1, pkt, extra=40, mki_index=mi)); a = len(L)
             L.append(f"peek 1 {1 if wildcard else 0} {H(s)}"); L.append(f"# TX {s:x} {mi}")
+            if k % 3 == 1 and not __import__("lib.apigen", fromlist=["x"]).AEAD and "rtp" not in kw:
+                # a damaged copy first (authenticated stream: it is refused): a refused packet uses up nothing
+                L.append(f"peek 2 {1 if wildcard else 0} {H(s)}")
+                L.append(pkt_op("unprotect", 2, f"@{a:x}~{rng.randrange(8 * 12, 8 * 20):x}", cap=100))
+                L.append(f"peek 2 {1 if wildcard else 0} {H(s)}"); L.append(f"# RJ {s:x} {mi}")
             L.append(f"peek 2 {1 if wildcard else 0} {H(s)}")
             L.append(pkt_op("unprotect", 2, f"@{a:x}", cap=100))
             L.append(f"peek 2 {1 if wildcard else 0} {H(s)}"); L.append(f"# RX {s:x} {mi}")
@@ -141,6 +146,13 @@ def api_monitor(script, c):
     dead = set()
     for i, l in enumerate(sl, 1):
         t = l.split()
+        if len(t) >= 4 and t[0] == "#" and t[1] == "RJ" and t[3] == "0":
+            before, op, after = out.get(i - 3, []), out.get(i - 2, []), out.get(i - 1, [])
+            if len(op) > 7 and len(before) > 10 and len(after) > 10 and before[2] == "0" and after[2] == "0" and int(op[2], 16) not in (0, 0xf):
+                if before[10] != after[10] or op[7] != "-":
+                    hits.append({"what": "a refused packet consumed key budget or raised a key-limit event", "signature": "api-refused-charged:" + op[1],
+                                 "detail": f"line {op[0]}: status {op[2]} budget {before[10]}->{after[10]} events {op[7]}"}); return hits
+            continue
         if len(t) < 4 or t[0] != "#" or t[1] not in ("TX", "RX") or t[3] != "0":
             continue
         side = t[1]
